@@ -7,6 +7,7 @@
 package main
 
 import (
+	"reflect"
 	"flag"
 	"fmt"
 	"os"
@@ -146,6 +147,7 @@ func main() {
 						}
 					}
 				}()
+				c.Importing = map[uintptr]bool{reflect.ValueOf(pr.Run).Pointer(): true}
 				pr.Run(c)
 			}()
 			return c
